@@ -405,3 +405,36 @@ def c15_3(I, shape):
         I.check(n >= 1 and bool(AND(data[0] == consumed,
                                     p.index == 1 + consumed)),
                 "length-check-brackets-exactly-the-declared-bytes")
+
+
+@obligation("C15.6", lambda tier: [dict(escape=e, padded=p)
+                                   for e in (False, True)
+                                   for p in (False, True)],
+            functions=["tlslite.messages:RecordHeader2.create",
+                       "tlslite.messages:RecordHeader2.write",
+                       "tlslite.messages:RecordHeader2.parse"],
+            assumes=CODEC_ASSUMES + [
+                "SSLv2 record header: length symbolic in 0..65535, padding "
+                "symbolic in 1..255 when the shape is padded else 0, "
+                "securityEscape per shape"],
+            patches=lambda s: (codec_proxies(), []))
+def c15_6(I, shape):
+    """RecordHeader2 round-trips every length its 2- or 3-byte form can carry
+    (15 bits short, 14 bits long) and refuses to encode any other"""
+    length = I.int_range(0, 65535, "length")
+    padding = I.int_range(1, 255, "padding") if shape["padded"] else 0
+    esc = shape["escape"]
+    short = not (shape["padded"] or esc)
+    fits = (length < 0x8000) if short else (length < 0x4000)
+    h = M.RecordHeader2().create(length, padding, esc)
+    try:
+        data = h.write()
+    except ValueError:
+        I.check(NOT(fits), "encodable-length-not-refused")
+        return
+    I.check(fits, "overlong-length-refused-not-truncated")
+    I.check(len(data) == (2 if short else 3), "header-size")
+    back = M.RecordHeader2().parse(Parser(newbuf(list(data))))
+    I.check(AND(back.length == length, back.padding == padding),
+            "header-write-parse-identity")
+    I.check(bool(back.securityEscape) == bool(esc), "security-escape-kept")
